@@ -76,10 +76,11 @@ func Verify(inz *zip.Reader, skipDigests bool) ([]*JarSignature, error) {
 			sigblobs[base] = contents
 		}
 	}
-	if manifest == nil {
-		return nil, errors.New("JAR contains no META-INF/MANIFEST.MF")
-	} else if len(sigfiles) == 0 {
+	if len(sigfiles) == 0 {
+		// (with or without a manifest: e.g. an APK that only has a v2 signature)
 		return nil, sigerrors.NotSignedError{Type: "JAR"}
+	} else if manifest == nil {
+		return nil, errors.New("JAR contains no META-INF/MANIFEST.MF")
 	}
 	sigs := make([]*JarSignature, 0, len(sigfiles))
 	for base, sigfile := range sigfiles {
